@@ -119,14 +119,20 @@ Theorem C11_import_deterministic : forall doc doc1 doc',
 Proof. exact import_deterministic_current. Qed.
 Print Assumptions C11_import_deterministic.
 
-(* ... and it is NOT one without doc_ok: an array definition whose items are a $ref to a definition named like a
-   builtin-type prefix comes out differently depending on which of the two Go visits first (known finding) *)
-Theorem C11_import_deterministic_refuted :
+(* since 3a34129 (definitions visited in the order of their names) the order in which the definitions are listed is
+   irrelevant for EVERY document with distinct names; the refutation this replaces (an array of a $ref to a
+   builtin-prefixed name came out with or without `_` depending on Go's map order) no longer holds of the code *)
+Theorem C11_import_any_order : forall doc doc',
+  Permutation doc doc' -> NoDup (map (fun d:odef => fst d) doc) -> import_c doc = import_c doc'.
+Proof. exact import_any_order_current. Qed.
+Print Assumptions C11_import_any_order.
+
+Theorem C11_former_nondeterminism_witness_now_equal :
   let d1 := (of_string "Integer", OObject [mkp (of_string "id") (FPrim "string" "") false] []) in
   let d2 := (of_string "Order", OArray (FRef (of_string "Integer"))) in
-  import_c [d1; d2] <> import_c [d2; d1].
-Proof. exact import_deterministic_refuted. Qed.
-Print Assumptions C11_import_deterministic_refuted.
+  import_c [d1; d2] = import_c [d2; d1].
+Proof. exact (proj1 former_nondeterminism_witness). Qed.
+Print Assumptions C11_former_nondeterminism_witness_now_equal.
 
 (* completeness without doc_ok is false: a definition named like a builtin type is silently dropped *)
 Theorem C11_import_complete_refuted_builtin_named :
